@@ -1404,10 +1404,18 @@ class Evaluator:
                 return self.as_cond(body)
             return self.logic("and", Cond("sym", "isSome(%s)" % vkey(v)), self.as_cond(body))
         if self.strings:
-            if fn == "alloc::string::String::new" and not args:
-                return Str(True)
-            if fn == "alloc::string::String::is_empty" and args and isinstance(args[0], Str) and args[0].empty is not None:
+            if fn in ("alloc::string::String::new", "alloc::vec::Vec::<T>::new") and not args:
+                return Str(True)       # (vectors are tracked the same way: only emptiness)
+            if fn in ("alloc::string::String::is_empty", "alloc::vec::Vec::<T, A>::is_empty") and args and isinstance(args[0], Str) and args[0].empty is not None:
                 return Cond("true" if args[0].empty else "false")
+            # a constant-length list of options flattened and collected: `[a, b].into_iter().flatten().collect()`
+            isarr_ = lambda v: isinstance(v, tuple) and v and v[0] == "array"
+            if name == "flatten" and args and isarr_(args[0]) and all(isinstance(x, Agg) and x.var in ("Some", "None") for x in args[0][1:]):
+                return ("array",) + tuple(x.fields.get("0") for x in args[0][1:] if x.var == "Some")
+            if name == "collect" and args and isarr_(args[0]):
+                return args[0]
+            if fn in ("alloc::vec::Vec::<T, A>::is_empty", "core::slice::<impl [T]>::is_empty") and args and isarr_(args[0]):
+                return Cond("true" if len(args[0]) == 1 else "false")
             if fn in ("alloc::fmt::format", "core::hint::must_use") and args:
                 # format!(..) of an error message: at least its literal text
                 return Str(False) if fn == "alloc::fmt::format" else args[0]
